@@ -24,8 +24,9 @@ theorem found_esc (hL : LetterClass L) {cfg : Cfg} (hE : EscNotLetter L cfg) (hd
   by_cases hc : cfg.esc.contains ch = true
   · simp only [FoundOk, hc, if_true]
     have hmem : ch ∈ cfg.esc := by simpa using hc
-    obtain ⟨hLch, hne⟩ := hE ch hmem
-    have hLch' : L (Char.ofNat ch.toNat) = false := by rw [Char.ofNat_toNat]; exact hLch
+    obtain ⟨hLch, hne, hnamp⟩ := hE ch hmem
+    have hLch' : tokChar L (Char.ofNat ch.toNat) = true := by
+      rw [Char.ofNat_toNat]; simp [tokChar, hLch, hne, hnamp]
     refine ⟨ok_escToken 0 (char_toNat_lt ch) hLch', ?_⟩
     have htok : letters L (STX :: natToDec ch.toNat ++ [ETX]) = [] := letters_escToken hL ch.toNat
     rw [htok]
@@ -49,7 +50,7 @@ theorem found_br (hL : LetterClass L) (hdata : ok L st.stash.length data = true)
     (h : find [' ', ' ', '\n'] (data.drop si) = some off) :
     FoundOk L st data ⟨.el (mkEl "br"), si + off, ((si + off + 3 : Nat) : Int)⟩ := by
   obtain ⟨pre', rest, h1, h2⟩ := find_spec h
-  refine ⟨rfl, nodeOk_mkEl _ _ _, rfl, ?_⟩
+  refine ⟨rfl, nodeOk_mkEl _ _ _, rfl, rfl, ?_⟩
   have hd : data = (data.take si ++ pre') ++ (' ' :: [' ', '\n']) ++ rest := by
     have := (List.take_append_drop si data).symm
     rw [h1] at this
@@ -162,7 +163,7 @@ theorem found_em {c : Char} (hd : Delim L c) (hdata : ok L st.stash.length data 
   rw [hdrop] at hokpos
   obtain ⟨hgs, _, hlet⟩ := assemble_split (table st.stash) hd.brk hd.ne hd.notL item.steps groups _ hgl hshape hokpos
   have hbuilt := build_spec (tbl := table st.stash) hd _ groups item idx' el hgs (by rw [hgl, hng]) hb
-  refine ⟨hbuilt.tail, hbuilt.nok, (nonAtomic_iff.1 hbuilt.na).2, ?_⟩
+  refine ⟨hbuilt.tail, hbuilt.nok, (nonAtomic_iff.1 hbuilt.na).2.1, (nonAtomic_iff.1 hbuilt.na).2.2, ?_⟩
   have hdd : data = data.take s ++ (c :: x) ++ data.drop e := by
     have := (List.take_append_drop s data).symm
     rw [hdrop, hx] at this
